@@ -190,6 +190,8 @@ def _run(check: PropertyCheck, driver_module: str, tier: str, seed: int, t0: flo
                         "wall_s": round(res.wall_s, 2)})
         if spec.get("expect_emitted", True) and not res.emitted and spec.get("emit", True):
             raise MachineryError(f"{spec['module']} emitted no scenario (vacuous instance)")
+        if len(res.emitted) < spec.get("min_emitted", 0):      # guards against an instance that shrank by accident
+            raise MachineryError(f"{spec['module']} emitted {len(res.emitted)} scenarios, at least {spec['min_emitted']} expected")
         scenarios += [(s, "tlc") for s in res.emitted]
     n_tlc = len(scenarios)
     t_mc = time.time() - t0
